@@ -214,6 +214,33 @@ theorem update_modes_prefix (st : Sspor) (k nm nf cols : Nat) (o : List Nat) (hk
     | false =>
       by_cases h : n > nf <;> simp [h]
 
+/-- **C15 / C01 (a basis fitted behind the model's back).**  When the basis object is fitted by somebody else, nothing the
+model itself holds changes (ranking, count, its own basis matrix stay those of ITS last fit) … -/
+theorem outside_basis_fit_keeps_model (st : Sspor) (ne nf : Nat) :
+    (st.step (.basisFit ne nf)).1.observe = st.observe ∧ (st.step (.basisFit ne nf)).1.nBasisModes = st.nBasisModes := by
+  simp [Sspor.step, Sspor.observe, Sspor.selected]
+
+/-- … and the next `update_n_basis_modes(k)` on the cheap path ranks the basis as it is NOW: the ranking is the optimizer's
+answer for this call (`o`), the basis matrix has the new number of sensor rows – whatever `k` was asked for before. -/
+theorem update_after_outside_basis_fit (st : Sspor) (ne nf k nm nf' cols : Nat) (o : List Nat) (hk : 0 < k)
+    (hnm : (st.step (.basisFit ne nf)).1.basis.nModes = some nm)
+    (hf : (st.step (.basisFit ne nf)).1.basis.fitted = some (nf', cols)) (hle : k ≤ nm)
+    (hok : ((st.step (.basisFit ne nf)).1.updateModes (.int k) none o).2 = none) :
+    ((st.step (.basisFit ne nf)).1.updateModes (.int k) none o).1.bm = some (nf', min k cols) ∧
+    ((st.step (.basisFit ne nf)).1.updateModes (.int k) none o).1.ranking = some o :=
+  (update_modes_prefix _ k nm nf' cols o hk hnm hf hle).2 hok
+
+/-- a copy of the model (pickle / deepcopy) is the model: every later call answers alike -/
+theorem round_trip_is_identity (st : Sspor) (ops : List SsporOp) :
+    ((st.step .roundTrip).1).run ops = st.run ops ∧ (st.step .roundTrip).1.observe = st.observe := ⟨rfl, rfl⟩
+
+example : ∃ st : Sspor, ∃ o1 o2 : List Nat,
+    let s1 := (st.fit 3 4 false o1).1
+    let s2 := (s1.step (.basisFit 3 2)).1
+    s2.observe = s1.observe ∧ (s2.updateModes (.int 2) none o2).1.bm = some (2, 2) ∧ s1.bm = some (4, 3) :=
+  ⟨{ nSensors := none, defaulted := false, nBasisModes := none, basis := { kind := .identity, nModes := none, fitted := none },
+     ranking := none, bm := none }, [0, 1, 2, 3], [1, 0], by decide⟩
+
 /-- a rejected `update_n_basis_modes` whose value is not a positive integer changes nothing -/
 theorem update_modes_invalid_unchanged (st : Sspor) (v : PyCount) (x : Option (Nat × Nat))
     (o : List Nat) (hv : v = .other ∨ ∃ z : Int, v = .int z ∧ z ≤ 0) :
